@@ -21,7 +21,7 @@ EXPLANATION = (
     "summary, similar-code replacement and placement arithmetic are not decided."
 )
 ASSUMPTIONS = [
-    "R03.5 (break/continue finder lacks AsyncFor) and the missing scope cuts of the return counter only cause over-refusal, which the property allows: recorded as exceptions, not armed",
+    "the break/continue finder lacking AsyncFor and the missing scope cuts of the return counter only cause over-refusal, which the property allows: recorded as exceptions, not armed (R03.5 arms only the under-refusal direction: else clauses)",
     "IfExp/BoolOp conditional evaluation matters only with a walrus inside: not armed",
 ]
 
@@ -175,6 +175,37 @@ def check(ctx, res) -> None:
 
     # ---- R03.4
     yield_counter_rule(ctx, res, "R03.4")
+
+    # ---- R03.5 a loop's else clause is not inside the loop: break/continue there belong to the ENCLOSING loop, so the
+    # unmatched-break finder must visit orelse outside its loop count (statement order: += 1, body, -= 1, orelse)
+    bf = idx.need_class("rope.refactor.extract._UnmatchedBreakOrContinueFinder")
+    for hname in sorted({h.name for c in ("For", "While", "AsyncFor") if (h := v.handler(bf.qualname, c)) is not None}):
+        h = bf.methods.get(hname) or idx.find_method(bf.qualname, hname)
+        # follow one level of delegation (self.loop_encountered(node))
+        target = h
+        for call in calls_in(h.node):
+            if is_self_attr(call.func) and idx.find_method(bf.qualname, call.func.attr) is not None:
+                target = idx.find_method(bf.qualname, call.func.attr)
+        order = []
+        for st in target.node.body:
+            for x in [st, *ast.walk(st)]:
+                if isinstance(x, ast.AugAssign) and is_self_attr(x.target) and "loop" in x.target.attr:
+                    order.append(("inc" if isinstance(x.op, ast.Add) else "dec", st.lineno))
+            src = ast.unparse(st)
+            if ".visit(" in src or "visit(" in src:
+                if "orelse" in src:
+                    order.append(("orelse", st.lineno))
+                if ".body" in src:
+                    order.append(("body", st.lineno))
+        kinds = [k for k, _ in order]
+        ok = None
+        if "inc" in kinds and "dec" in kinds and "orelse" in kinds:
+            i_inc, i_dec = kinds.index("inc"), kinds.index("dec")
+            ok = all(not (i_inc < i < i_dec) for i, k in enumerate(kinds) if k == "orelse")
+        res.add("R03.5", f"_UnmatchedBreakOrContinueFinder.{hname}", ok, target.where,
+                "the loop's else clause is visited outside the loop count" if ok else
+                "the unmatched break/continue finder visits a loop's else clause inside its loop count: `for ...: ... else: continue` extracted from an "
+                "enclosing loop is accepted, and the new function contains `continue`/`break` outside any loop (the module no longer compiles)")
 
     # ---- R03.8 a region containing await / async for / async with can only live in an `async def`: either such regions
     # are refused on every interpreter version, or the emitter of the new function has an `async def` header path
